@@ -66,6 +66,9 @@ pub struct Scenario {
     /// system with the same options, the C07 voice models describe the default mode only
     #[serde(default)]
     pub self_init_0: bool,
+    /// the symphonia sampler plugin is registered (vm backend; programs using `Sampler_mono!`)
+    #[serde(default)]
+    pub with_sampler: bool,
 }
 
 #[derive(Clone, Debug, Serialize, Deserialize, PartialEq)]
@@ -419,6 +422,7 @@ pub fn run(sc: &Scenario) -> RunResult {
         with_scheduler: sc.with_scheduler,
         sample_rate: sc.sample_rate,
         self_init_0: sc.self_init_0,
+        with_sampler: sc.with_sampler,
     };
     let is_c07 = sc.prop == "C07";
     let src0 = sc.versions[0].source();
@@ -873,6 +877,7 @@ pub fn gen_c07(seed: u64) -> Scenario {
         with_scheduler: r_cfg.chance(1, 2),
         sample_rate: *r_cfg.pick(&[48000u32, 44100, 96000]),
         self_init_0: false,
+        with_sampler: false,
     }
 }
 
@@ -911,6 +916,7 @@ pub fn gen_c06(seed: u64) -> Scenario {
         with_scheduler: r_cfg.chance(1, 2),
         sample_rate: *r_cfg.pick(&[48000u32, 44100, 96000]),
         self_init_0: root.sub("compiler-options").chance(1, 5),
+        with_sampler: false,
     }
 }
 
@@ -973,10 +979,53 @@ pub fn gen_c06_fixture(seed: u64) -> Option<Scenario> {
         with_scheduler: r_cfg.chance(1, 2),
         sample_rate: 48000,
         self_init_0: root.sub("compiler-options").chance(1, 5),
+        with_sampler: false,
     })
 }
 
+/// C06 on a program that reads a sound file through the symphonia sampler plugin: the play
+/// position lives in a `self` cell, the sample buffer index is handed out by the plugin's macro at
+/// compile time (every recompilation on the same compiler context asks the plugin again).
+pub fn gen_c06_sampler(seed: u64) -> Scenario {
+    let root = Rng::new(seed);
+    let mut r = root.sub("sampler");
+    let mut r_sched = root.sub("schedule");
+    let wav = format!("{}/crates/lib/plugins/mimium-symphonia/tests/assets/count_100_by_0_01_f32_48000Hz.wav", repo_root());
+    let step = *r.pick(&[1.0, 1.0, 0.5, 2.0]);
+    let src = match r.below(3) {
+        0 => format!("fn counter(){{\n  self + {step:?}\n}}\nfn dsp(){{\n  let sampler = Sampler_mono!(\"{wav}\")\n  let player = sampler.player\n  player(counter() - {step:?})\n}}\n"),
+        1 => format!("fn counter(inc){{\n  self + inc\n}}\nfn dsp(){{\n  let a = Sampler_mono!(\"{wav}\")\n  let b = Sampler_mono!(\"{wav}\")\n  let pa = a.player\n  let pb = b.player\n  pa(counter({step:?})) + pb(counter(1.0)) * 2.0\n}}\n"),
+        _ => format!("fn counter(){{\n  self + {step:?}\n}}\nfn dsp(){{\n  let sampler = Sampler_mono!(\"{wav}\")\n  let player = sampler.player\n  player(mem(counter())) + sampler.length * 0.001\n}}\n"),
+    };
+    let n_swaps = r.range(1, 5) as usize;
+    let mut versions = vec![Version::Raw { src: src.clone(), path: None }];
+    for k in 0..n_swaps {
+        versions.push(Version::Raw { src: if k % 2 == 0 { src.clone() } else { format!("{src}// resaved {k}\n") }, path: None });
+    }
+    let total = *r_sched.pick(&[32u64, 64, 96]);
+    let blocks = gen_blocks(&mut r_sched);
+    let saves = gen_saves(&mut r_sched, versions.len(), total, &blocks);
+    Scenario {
+        prop: "C06".into(),
+        seed,
+        backend: Backend::Vm,
+        versions,
+        saves,
+        blocks,
+        total,
+        input_seed: r_sched.next_u64(),
+        retire: RetireMode::Present,
+        with_scheduler: false,
+        sample_rate: 48000,
+        self_init_0: false,
+        with_sampler: true,
+    }
+}
+
 pub fn gen_c06_any(seed: u64) -> Scenario {
+    if Rng::new(seed).sub("which-sampler").chance(1, 16) {
+        return gen_c06_sampler(seed);
+    }
     if Rng::new(seed).sub("which").chance(1, 5) {
         if let Some(s) = gen_c06_fixture(seed) {
             return s;
@@ -1187,6 +1236,7 @@ pub fn selfcheck() -> (bool, Vec<String>) {
                     with_scheduler: rep % 2 == 1,
                     sample_rate: [48000, 44100, 96000, 48000][rep as usize % 4],
                     self_init_0: false,
+                    with_sampler: false,
                 };
                 let r = run(&sc);
                 match r.outcome {
@@ -1259,6 +1309,7 @@ fn base_scenario(prop: &str, backend: Backend, versions: Vec<Version>, saves: Ve
         with_scheduler: false,
         sample_rate: 44100,
         self_init_0: false,
+        with_sampler: false,
     }
 }
 
